@@ -51,7 +51,9 @@ impl FullnameInfo {
         {
             Some(xot.empty_prefix())
         } else {
-            self.prefixes_by_namespace(namespace).next()
+            // and the xml prefix cannot stand for any other namespace
+            self.prefixes_by_namespace(namespace)
+                .find(|&prefix| prefix != xot.xml_prefix())
         }
     }
 
@@ -62,7 +64,7 @@ impl FullnameInfo {
             return Some(xot.xml_prefix());
         }
         self.prefixes_by_namespace(namespace)
-            .find(|&prefix| prefix != xot.empty_prefix())
+            .find(|&prefix| prefix != xot.empty_prefix() && prefix != xot.xml_prefix())
     }
 }
 
